@@ -885,6 +885,39 @@ func shapes(b hx.Sexp, t *Ty) []hx.Sexp {
 	return out
 }
 
+// exhaustiveValuedEnum: an enum whose Go values are JSON-representable and differ from the names,
+// every position kind × the names, the Go values themselves and other near-misses (lower-cased name,
+// another enum's name, numbers, booleans) × every spelling: only declared NAMES coerce.
+func (h *harness) exhaustiveValuedEnum() {
+	u := unitTy
+	in := &InputDef{Name: "Un", Fields: []*Field{{Name: "l", Ty: listTy(u)}, {Name: "u", Ty: nnTy(u)}}}
+	types := []*Ty{u, nnTy(u), listTy(u), listTy(nnTy(u)), nnTy(listTy(nnTy(u))), listTy(listTy(u)), inputTy(in), listTy(inputTy(in))}
+	leaves := []hx.Sexp{cvEnum("METER"), cvEnum("FOOT"), cvEnum("INCH"), cvEnum("MILE"), cvNull,
+		cvStr("m"), cvHalf(3), cvBool(true), cvHalf(6), cvIntS("3"), // the declared Go values, as a client can send them
+		cvStr("METER"), cvStr("meter"), cvEnum("meter"), cvEnum("m"), cvEnum("RED"), cvStr("M"), cvBool(false), cvIntS("1"), cvStr("")}
+	var values []hx.Sexp
+	for _, l := range leaves {
+		values = append(values, l, cvList(l), cvList(cvEnum("MILE"), l), cvList(cvList(l)),
+			hx.N("obj", kv("u", l)), hx.N("obj", kv("l", l), kv("u", cvEnum("INCH"))), hx.N("obj", kv("l", cvList(l, cvEnum("FOOT"))), kv("u", cvEnum("METER"))))
+	}
+	var groups []*Group
+	for _, t := range types {
+		for i, v := range values {
+			v := v
+			shape := tag(v)
+			nt := nullable(t)
+			// keep the pairs whose shapes can meet (an object for an enum position is junk of no interest)
+			if (shape == "obj") != (nt.K == "input" || (nt.K == "list" && nullable(nt.Elem).K == "input")) {
+				continue
+			}
+			g := newGroup("field", t, nil, &v, false)
+			g.Routes = i%16 == 0
+			groups = append(groups, g)
+		}
+	}
+	h.evalGroups(groups, 1, true)
+}
+
 // exhaustiveNilEnum: an enum value declared without a Go value, at nullable positions, through every
 // spelling: all of them hand the resolver nil (the literal route, the variable route, defaults).
 func (h *harness) exhaustiveNilEnum() {
@@ -1465,6 +1498,7 @@ func main() {
 	}
 	phase("exhaustive", h.exhaustive)
 	h.exhaustiveNilEnum()
+	phase("valuedEnum", h.exhaustiveValuedEnum)
 	h.exhaustiveGoKinds()
 	h.dateTimeShapes(run.Scale(3000, 60000))
 	run.Note("exhaustive part: 7 scalars + 2 enums × wrapper forms × every boundary value (in 2–5 list shapes) × the deterministic spellings; @skip/@include × 8 values")
